@@ -36,6 +36,10 @@ def gen_case(rng, tier, i):
         ctor["boundary"] = rng.choice(RULES)
     else:
         ctor["boundary"] = {a["name"]: rng.choice(RULES) for a in layout.axes}
+        if rng.random() < 0.25:
+            # an explicit None entry says "nothing chosen for this axis" (the periodic-derived default applies)
+            ctor["boundary"][rng.choice(layout.axes)["name"]] = None
+            ctor["periodic"] = rng.choice([True, False])
     if rng.random() < 0.65:
         if rng.random() < 0.5:
             ctor["fill_value"] = fillv(rng)
@@ -89,15 +93,33 @@ def gen_case(rng, tier, i):
         call["fill_value"] = fillv(rng)
     elif r < 0.45:
         call["fill_value"] = {a["name"]: fillv(rng) for a in layout.axes if rng.random() < 0.6}
-    return {"layout": {"axes": layout.axes, "extra": layout.extra}, "ctor": ctor,
+    case = {"layout": {"axes": layout.axes, "extra": layout.extra}, "ctor": ctor,
             "dims": [d for d, _ in dims], "data": data.tolist(), "call": call}
+    r = rng.random()
+    if r < 0.08:
+        # integer-typed data (counts, masks-as-ints): integral fill values, so that numpy's own constant padding of an
+        # integer array is exact; results that are not integers (interp) must not be truncated
+        case["dtype"] = "int64"
+        case["data"] = np.round(data).tolist()
+
+        def integral(v):
+            if isinstance(v, dict):
+                return {k: float(round(x)) for k, x in v.items()}
+            return v if v is None else float(round(v))
+        if "fill_value" in ctor:
+            ctor["fill_value"] = integral(ctor["fill_value"])
+        if "fill_value" in call:
+            call["fill_value"] = integral(call["fill_value"])
+    elif r < 0.16:
+        case["dtype"] = "float32"          # the dyadic values used here are exact in single precision too
+    return case
 
 
 def _build(case):
     layout = Layout(case["layout"]["axes"], [tuple(e) for e in case["layout"]["extra"]])
     ds, grid = build_grid(layout, **case["ctor"])
     da = xr.DataArray(np.array(case["data"], dtype=float).reshape(
-        [ds.sizes[d] for d in case["dims"]]), dims=case["dims"], name="phi")
+        [ds.sizes[d] for d in case["dims"]]).astype(case.get("dtype", "float64")), dims=case["dims"], name="phi")
     return layout, ds, grid, da
 
 
@@ -119,6 +141,23 @@ def steps_of(case):
     return out
 
 
+def documented_axes(case, grid):
+    """per-axis rule and fill value as the DOCUMENTATION resolves the constructor arguments of this generator
+    (boundary entry, else periodic -> 'periodic' / 'fill'; fill value entry, else 0) - so that a constructor that
+    stores something else shows up here, where the stencil result is judged ("... or as grid default")"""
+    ctor = case["ctor"]
+    out = []
+    for name, ax in grid.axes.items():
+        b = ctor.get("boundary")
+        rule = b if isinstance(b, str) else (b or {}).get(name)
+        if rule is None:
+            rule = "periodic" if ctor.get("periodic", True) is True else "fill"
+        f = ctor.get("fill_value")
+        fill = f.get(name) if isinstance(f, dict) else f
+        out.append((name, rule, 0.0 if fill is None else fill, dict(ax.coords), dict(ax.default_shifts)))
+    return out
+
+
 def eval_case(case, drv):
     layout, ds, grid, da = _build(case)
     call = case["call"]
@@ -133,7 +172,7 @@ def eval_case(case, drv):
     except Exception as e:  # noqa: BLE001
         impl = ("err", exc_kind(e))
     axis = [call["axis"]] if isinstance(call["axis"], str) else call["axis"]
-    req = (f"{call['func']} {enc_grid(grid_axes_for_driver(grid))} {enc_arr(case['dims'], da.values)} "
+    req = (f"{call['func']} {enc_grid(documented_axes(case, grid))} {enc_arr(case['dims'], da.values)} "
            f"{len(axis)} {' '.join(axis)} {enc_kw(call.get('to'))} {enc_kw(call.get('boundary'))} "
            f"{enc_kw(call.get('fill_value'), enc_rat)}")
     model = parse_res(drv.ask("c01 " + req))
